@@ -210,11 +210,14 @@ def _run_chunk(chunk):
                 plant_decoys(d)
                 os.chdir(d)
                 try:
+                    os.environ["KV_TWIN_RUN"] = "1"
                     signal.alarm(getattr(mod, "CASE_TIMEOUT", 300))
                     mod.run_case(tw, d)
                     signal.alarm(0)
                 except BaseException:
                     signal.alarm(0)
+                finally:
+                    os.environ.pop("KV_TWIN_RUN", None)
         clean_dir(d)
         plant_decoys(d)
         os.chdir(d)
@@ -493,9 +496,12 @@ def replay(modname, path):
         tw = twin_of(blob["case"])
         if tw is not None:
             try:
+                os.environ["KV_TWIN_RUN"] = "1"
                 mod.run_case(tw, d)
             except BaseException:
                 pass
+            finally:
+                os.environ.pop("KV_TWIN_RUN", None)
             clean_dir(d)
             plant_decoys(d)
             os.chdir(d)
